@@ -724,7 +724,7 @@ def mode_c07(emit, tier, rng, scenario_file):
         tid += 1
         emit(run_schedules(kind, dict(cfg, reuse=(k % 4 == 0)), frs, rng, tid))
     # large caches (above the default cache_size) and long fragments
-    for k in range(12 if tier == 'quick' else 150):
+    for k in range(12 if tier == 'quick' else 80):
         kind, cfg, frs = gen_sequence(rng, tier)
         kind, cfg, frs = scale_sequence(kind, cfg, frs[:8], rng)
         tid += 1
